@@ -190,6 +190,58 @@ theorem anyCat_of_rv {inp : Input} {a : Nat} (h : catIn inp a [.rv] = true) : ca
   simp at hm; subst hm
   exact (catIn_iff inp a anyCat).2 ⟨.rv, hc, by simp [anyCat]⟩
 
+theorem pair_inj (w x y x' y' : Nat) (hx : x < w) (hx' : x' < w) (h : y * w + x = y' * w + x') : x = x' ∧ y = y' := by
+  have h1 : (y * w + x) % w = x := by
+    rw [Nat.add_comm, Nat.add_mul_mod_self_right]; exact Nat.mod_eq_of_lt hx
+  have h2 : (y' * w + x') % w = x' := by
+    rw [Nat.add_comm, Nat.add_mul_mod_self_right]; exact Nat.mod_eq_of_lt hx'
+  have hxx : x = x' := by rw [← h1, ← h2, h]
+  subst hxx
+  have hw : 0 < w := by omega
+  have : y * w = y' * w := by omega
+  exact ⟨rfl, Nat.eq_of_mul_eq_mul_right hw this⟩
+
+theorem cell_lt (w h x y : Nat) (hx : x < w) (hy : y < h) : y * w + x < w * h := by
+  have : (y + 1) * w ≤ h * w := Nat.mul_le_mul_right w hy
+  rw [Nat.add_mul, Nat.one_mul, Nat.mul_comm h w] at this
+  omega
+
+/-- `grid::resize`: every cell of the new grid takes the old cell at the same position (distinct positions, distinct cells) or a new value -/
+theorem safe_gridCells {inp : Input} (w h w' m : Nat) (hc : catIn inp 0 anyCat = true) (hn : w * h = inp.size 0) :
+    Safe inp ((List.range m).map (gridCell (inp.isRv 0) w h w')) := by
+  refine ⟨?_, ?_⟩
+  · intro x hx
+    simp only [List.mem_map, List.mem_range] at hx
+    obtain ⟨k, _, rfl⟩ := hx
+    unfold gridCell
+    split
+    · rename_i hin
+      have hb := cell_lt w h _ _ hin.1 hin.2
+      cases hr : inp.isRv 0
+      · exact (ok_xfer_copy inp 0 _ .res).2 ⟨lvcr_of_any hc hr, by omega, destOk_res inp⟩
+      · exact (ok_xfer_move inp 0 _ .res).2 ⟨not_lvcr_of_rv hr, by omega, destOk_res inp⟩
+    · exact (ok_fresh inp _ .res).2 ⟨by omega, destOk_res inp⟩
+  · apply clean_map_range
+    intro i j hij _ b c hk hu
+    unfold gridCell at hk hu
+    split at hk
+    · rename_i hi
+      split at hu
+      · rename_i hj
+        cases hr : inp.isRv 0
+        · rw [hr] at hk; exact hk
+        · rw [hr] at hk hu
+          simp only [fwd, if_true, Instr.kills, Instr.uses] at hk hu
+          obtain ⟨rfl, hkc⟩ := hk
+          obtain ⟨_, huc⟩ := hu
+          have := pair_inj w _ _ _ _ hi.1 hj.1 (hkc.trans huc.symm)
+          have e1 := Nat.div_add_mod i w'
+          have e2 := Nat.div_add_mod j w'
+          rw [this.1, this.2] at e1
+          omega
+      · exact hu
+    · exact hk
+
 theorem safe_deriveEach {inp : Input} {a : Nat} {ks : List Nat} {d : Dest} (hn : ks.length ≤ inp.size a)
     (hd : DestOk inp d) : Safe inp (deriveEach a ks d) := by
   refine ⟨(forall_mem_deriveEach _ _ _ _).2 fun i k hk => (ok_derive inp a i k d).2 ⟨?_, hd⟩, ?_⟩
